@@ -867,3 +867,51 @@ def process_level_streams(ctx, res, nconv=4, spec="popen"):
         group.terminate(timeout=3.0)
     for p in problems:
         res.violations.append(dict(case={"scenario": "process-streams", "spec": spec}, what=p))
+
+
+def process_level_multichannel(ctx, res, ngw=2):
+    """C10: MultiChannel.make_receive_queue over several REAL gateways — per member channel: every item once,
+    in order, then exactly one endmarker"""
+    execnet = ctx.execnet
+    rng = ctx.rng("proc-multichannel")
+    group = execnet.Group()
+    problems = []
+    try:
+        for _ in range(ngw):
+            group.makegateway("popen")
+        counts = [rng.choice([0, 1, 7, 30]) for _ in range(ngw)]
+        mch = group.remote_exec("n = channel.receive()\nfor i in range(n):\n    channel.send((n, i))\n")
+        for ch, n in zip(mch, counts):
+            ch.send(n)
+        END = "<end>"
+        q = mch.make_receive_queue(endmarker=END)
+        per = {ch: [] for ch in mch}
+        ends = 0
+        while ends < ngw:
+            ch, obj = q.get(timeout=30)
+            per[ch].append(obj)
+            if obj == END:
+                ends += 1
+        import queue as _q
+        try:
+            extra = q.get(timeout=0.3)
+            problems.append("an event arrived after every member channel delivered its endmarker: %r" % (extra[1],))
+        except _q.Empty:
+            pass
+        for ch, n in zip(mch, counts):
+            exp = [(n, i) for i in range(n)] + [END]
+            if per[ch] != exp:
+                problems.append(f"member channel with {n} items: queue projection {per[ch][:5]}… != items in order then one endmarker")
+            try:
+                ch.receive(0.1)
+                problems.append("receive() accepted on a MultiChannel member after make_receive_queue")
+            except OSError:
+                pass
+        res.count(("proc-multichannel", repr(counts)))
+        res.stat("process_level_runs")
+    except Exception as e:  # noqa: BLE001
+        problems.append("process-level MultiChannel run failed: %r" % (e,))
+    finally:
+        group.terminate(timeout=3.0)
+    for p in problems:
+        res.violations.append(dict(case={"scenario": "process-multichannel"}, what=p))
